@@ -1,6 +1,6 @@
 (* C03 -- property theorems only.  Each is closed by `exact <lemma>`. *)
 From Coq Require Import ZArith NArith List Bool Arith Permutation String.
-From SV Require Import Common.GoInt C03.Model C03.Spec C03.ProofsOrder C03.ProofsTable C03.ProofsMachine C03.MapRanges.
+From SV Require Import Common.GoInt C03.Model C03.Spec C03.ProofsOrder C03.ProofsTable C03.ProofsMachine C03.MapRanges C03.ProofsStatements.
 Import ListNotations.
 Open Scope nat_scope.
 
@@ -13,7 +13,7 @@ Proof. exact sort_perm. Qed.
 (* ... and it is the sorted permutation of the entries *)
 Theorem listing_is_sorted_permutation :
   forall l : list bytes, Permutation (sort l) l /\ sortedb (sort l) = true.
-Proof. intros l. split; [apply sort_is_perm | apply sort_sorted]. Qed.
+Proof. exact listing_is_sorted_permutation_stmt. Qed.
 
 (* the byte-string order used is a total order *)
 Theorem byte_order_total_order :
@@ -21,9 +21,7 @@ Theorem byte_order_total_order :
     (lex_leb a b = true \/ lex_leb b a = true) /\
     (lex_leb a b = true -> lex_leb b a = true -> a = b) /\
     (lex_leb a b = true -> lex_leb b c = true -> lex_leb a c = true).
-Proof.
-  intros a b c. split; [apply lex_total|]. split; [apply lex_antisym | apply lex_trans].
-Qed.
+Proof. exact byte_order_total_order_stmt. Qed.
 
 (* hash(s) of the language is a function of the runes / bytes only: two runs with
    different environments (seeded string hash, enumeration oracle, addresses)
@@ -32,7 +30,7 @@ Theorem user_hash_seedless :
   forall e1 e2 runes b,
     transcript (run e1 [OHashStr runes; OHashBytes b]) = transcript (run e2 [OHashStr runes; OHashBytes b]) /\
     fst (transcript (run e1 [OHashStr runes; OHashBytes b])) = [ENum (java_hash runes); ENum (fnv_hash b)].
-Proof. intros e1 e2 runes b. split; reflexivity. Qed.
+Proof. exact user_hash_seedless_stmt. Qed.
 
 (* an insertion-ordered table exposes the same results (lookups, deletions,
    popitem, iteration order, length) under any two hash functions, for every
@@ -63,7 +61,7 @@ Proof. exact run_equals_spec. Qed.
    its body does not depend on the order (the complete table, by computation) *)
 Theorem every_map_range_sorted :
   forall r, In r map_ranges -> mrow_ok r = true.
-Proof. apply forallb_forall. vm_compute. reflexivity. Qed.
+Proof. exact every_map_range_sorted_stmt. Qed.
 
 (* Non-vacuity: two genuinely different environments (different hash functions,
    one enumeration oracle reverses), a history that grows the table past one
